@@ -147,6 +147,10 @@ def run(chk, prog):
     # 2*pi/steps, sinusoidal slope = angle: C03 R2, R6; re-evaluated here)
     from .common import reeval
     reeval(chk, prog, "C03", lambda i: i["rule"] in ("R2", "R6"), "R7", "R7-angle", 6)
+    # ---- R8: the recorded wake potential is the convolution the kick is made of: padded layout, plan pipeline, half spectrum and scaling
+    # (decided under C06 R1-R4; re-evaluated here)
+    from .common import reeval
+    reeval(chk, prog, "C06", lambda i: i["rule"] in ("R1", "R2", "R3", "R4"), "R8", "R8-wake-is-the-convolution", 20)
     # ---- RD: dimensional consistency of the quantities this property depends on (sa/dims.py) ----------------------------------------
     from . import dimrules
     nrd = dimrules.run(chk, prog, "RD")
